@@ -472,6 +472,20 @@ impl ContinuityStore {
             return Ok(events);
         }
 
+        // Rebuild under the seq lock: otherwise an append that lands between our truth replay and
+        // our rebuild is overwritten by a stale sidecar (which a restarted authority would trust).
+        #[cfg(rip_verif)]
+        rip_kernel::verif::lock_point("cont.next_seq", &|| self.next_seq.try_lock().is_ok());
+        let _next_seq = self.next_seq.lock().expect("continuity seq mutex");
+        self.replay_events_locked(continuity_id)
+    }
+
+    /// `replay_events` for callers that already hold the seq lock.
+    fn replay_events_locked(&self, continuity_id: &str) -> io::Result<Vec<Event>> {
+        if let Ok(Some(events)) = self.stream_cache.try_replay(continuity_id) {
+            return Ok(events);
+        }
+
         let events = self
             .event_log
             .replay_stream(StreamKind::Continuity, continuity_id)?;
@@ -3514,7 +3528,7 @@ impl ContinuityStore {
             return Ok(last_seq.saturating_add(1));
         }
 
-        let events = self.replay_events(continuity_id)?;
+        let events = self.replay_events_locked(continuity_id)?;
         let last = events.last().ok_or_else(|| {
             io::Error::new(io::ErrorKind::NotFound, "continuity stream does not exist")
         })?;
